@@ -10,5 +10,5 @@ Extraction "fw_model.ml"
   c09_out_ok c09_outs_ok c09_inbound_violation
   pend_interest pend_data pend_tick c01_data_only_pending c01_data_complete c01_cs_reply_ok sat_rec select_hint data_effective
   c02_outs_ok c02_drop_ok c02_suppress_ok c02_strategy_ok c02_forward_ok c02_nodup_ok c02_must_drop c02_suppressed c02_cached c02_usable c02_candidates
-  strat_of c02_drop_reason suppression data_token be_val
+  spec_localhost strat_of c02_drop_reason suppression data_token be_val
   N.add N.mul N.sub N.of_nat N.to_nat N.eqb N.ltb N.leb N.div N.modulo N.compare.
